@@ -24,9 +24,9 @@ import (
 // compared with the model's projection tables. This is the one source-level part of the tie; it is
 // tolerant: a type that cannot be found or a field type that cannot be interpreted is a note, not
 // a failure (the behavioural "proj" phase does not depend on it).
-// What it notices that behaviour cannot: a record field that the skeleton does not name (harmless
-// for results, it only costs allocations — but the model's table and juno's own reflection test
-// say every key is named), and a shadow field that lost its `cbor:"…"` rename.
+// What it notices that behaviour cannot: a change of the projection tables the theorems are about
+// (e.g. a shadow field that lost its `cbor:"…"` rename). A record key the skeleton does not name
+// is only noted: that costs allocations, not correctness.
 // ---------------------------------------------------------------------------------------------
 
 type srcField struct {
@@ -206,13 +206,13 @@ func (h *H) phaseProjTables() {
 	}
 	structs, err := parseCoreStructs(filepath.Join(repo, "core"))
 	if err != nil || len(structs) == 0 {
-		res.Note("projection tables: cannot read %s/core: %v", repo, err)
+		res.Fatalf("projection tables: cannot read %s/core: %v", repo, err)
 		return
 	}
 	for _, name := range projectionNames {
 		want, err := resolveProjection(structs, name)
 		if err != nil {
-			res.Note("projection tables: %v (not compared)", err)
+			res.Fatalf("projection tables: %v (not compared)", err)
 			res.Hit("projection-table:not-compared")
 			continue
 		}
@@ -233,8 +233,9 @@ func (h *H) phaseProjTables() {
 		for _, f := range structFields(rec) {
 			res.Compared(1)
 			if !strings.Contains(d, "{"+f.key+":") && !strings.Contains(d, ";"+f.key+":") {
-				res.Mismatch(lib.Mismatch{Sig: "projection-misses-field/" + proj, Input: f.key,
-					Model: "every record key is named by the projection", Impl: "key " + f.key + " of " + rec.Name() + " is not named"})
+				// an allocation optimisation of partial_cbor.go, not part of the property: information only
+				res.Note("projection %s does not name key %s of %s (unmatched-key path, results unaffected)", proj, f.key, rec.Name())
+				res.Hit("projection-misses-field(note)")
 			}
 		}
 	}
